@@ -64,8 +64,8 @@ OPEN_STATEMENTS = [
     'left to the oracle only)',
     'equivalence with Jordan-Wigner IS a theorem: <enc s\'| bk(A) |enc s> = <s\'| jw(A) |s> for bravyi_kitaev and '
     'bravyi_kitaev_tree (bk_equiv_jw, tree_equiv_jw: isospectrality, equal expectation values), as are linearity, '
-    'preservation of Hermiticity and faithfulness (bk_linear, bk_hermitian_iff_and_faithful); multiplicativity is not '
-    'restated (bk_equiv_jw + C04 jw_multiplicative); CAR, diagonal '
+    'preservation of Hermiticity and faithfulness (bk_linear, bk_hermitian_iff_and_faithful) and multiplicativity '
+    '(bk_multiplicative: bk(A) * bk(B) has the matrix elements of A * B and of bk(A * B) on the encoded states); CAR, diagonal '
     'number operators and the vacuum ARE theorems (bk_car, bk_car_ann, bk_number_diagonal, bk_vacuum, tree_car)',
 ]
 
